@@ -176,7 +176,12 @@ def update_ref_contract(ref_is_none):
 
 def contracts():
     from contracts import c12 as _c12
-    return [update_ref_contract(False), update_ref_contract(True), _c12.setup_params_contract(["C08/"])]
+    from contracts import c02 as _c02
+    # the setter's link / unlink step: after the store, never for a refused assignment
+    sets = _c02.all_set_contracts(["C08/", "C02/exc-frame/no-link-bookkeeping", "C02/exc-frame/refs-and-async-refs-unchanged"])
+    for c in sets:
+        c.prop = PROP
+    return [update_ref_contract(False), update_ref_contract(True), _c12.setup_params_contract(["C08/"])] + sets
 
 
 ASSUMPTIONS = [
